@@ -29,6 +29,9 @@ type Att struct {
 	Meta map[string][]string `json:"meta,omitempty"`
 	Val  *Val                `json:"val,omitempty"`
 	Def  any                 `json:"def,omitempty"` // string | float64 | bool | []any | map[string]any
+	// DefTyped: the default is handed to goa as a TYPED Go value ([][]string, []map[string]any, map[string][]string,
+	// []string, []float64: what Default([][]string{...}) stores) instead of a tree of []any / map[string]any
+	DefTyped bool `json:"def_typed,omitempty"`
 }
 
 type Field struct {
@@ -77,6 +80,67 @@ var tagKeys = []string{"struct:field:name", "struct:field:type", "struct:field:p
 var otherMetaKeys = []string{"struct:tag:json", "openapi:example", "swagger:summary", "rpc:tag", "struct:pkg:path", "struct:error:name"}
 
 // ---------------------------------------------------------------- clone
+
+// typedDefault turns a default tree into the typed Go value a design written with typed literals stores:
+// []any of strings -> []string, of numbers -> []float64, of string lists -> [][]string, of maps -> []map[string]any;
+// map[string]any whose values are all string lists -> map[string][]string. Anything else is kept.
+func typedDefault(v any) any {
+	switch x := v.(type) {
+	case []any:
+		if len(x) == 0 {
+			return v
+		}
+		allS, allF, allL, allM := true, true, true, true
+		for _, e := range x {
+			_, isS := e.(string)
+			_, isF := e.(float64)
+			_, isM := e.(map[string]any)
+			l, isL := typedDefault(e).([]string)
+			_ = l
+			allS, allF, allL, allM = allS && isS, allF && isF, allL && isL, allM && isM
+		}
+		switch {
+		case allS:
+			o := make([]string, len(x))
+			for i, e := range x {
+				o[i] = e.(string)
+			}
+			return o
+		case allF:
+			o := make([]float64, len(x))
+			for i, e := range x {
+				o[i] = e.(float64)
+			}
+			return o
+		case allL:
+			o := make([][]string, len(x))
+			for i, e := range x {
+				o[i] = typedDefault(e).([]string)
+			}
+			return o
+		case allM:
+			o := make([]map[string]any, len(x))
+			for i, e := range x {
+				o[i] = e.(map[string]any)
+			}
+			return o
+		}
+	case map[string]any:
+		if len(x) == 0 {
+			return v
+		}
+		o := map[string][]string{}
+		for k, e := range x {
+			l, ok := typedDefault(e).([]string)
+			if !ok {
+				return v
+			}
+			o[k] = l
+		}
+		return o
+	}
+	return v
+}
 
 func cloneAny(v any) any {
 	switch x := v.(type) {
@@ -130,7 +194,7 @@ func (a *Att) clone() *Att {
 	if a == nil {
 		return nil
 	}
-	o := &Att{T: a.T.clone(), Desc: a.Desc, Val: a.Val.clone(), Def: cloneAny(a.Def)}
+	o := &Att{T: a.T.clone(), Desc: a.Desc, Val: a.Val.clone(), Def: cloneAny(a.Def), DefTyped: a.DefTyped}
 	if a.Meta != nil {
 		o.Meta = make(map[string][]string, len(a.Meta))
 		for k, v := range a.Meta {
@@ -505,7 +569,13 @@ func (g *gen) val(t *Type) *Val {
 
 func (g *gen) def() any {
 	r := g.r
-	switch r.Intn(5) {
+	switch r.Intn(8) {
+	case 5:
+		return []any{[]any{r.Pick("u", "v"), "w"}, []any{"x"}}
+	case 6:
+		return []any{map[string]any{"k": r.Pick("u", "v"), "l": []any{"p", "q"}}, map[string]any{"k": "z"}}
+	case 7:
+		return map[string]any{"l": []any{r.Pick("u", "v"), "w"}, "m": []any{"x"}}
 	case 0:
 		return r.Pick("dflt", "", "x y")
 	case 1:
@@ -531,6 +601,7 @@ func (g *gen) att(depth, ut int, guarded bool, role string) *Att {
 	}
 	if r.Chance(1, 5) {
 		a.Def = g.def()
+		a.DefTyped = r.Bool()
 	}
 	if r.Chance(1, 3) {
 		a.Meta = map[string][]string{}
@@ -769,6 +840,7 @@ func decorate(g *Graph, r *vc.Rand, what string) int {
 		if (what == "default" || what == "all") && r.Bool() {
 			if a.Def == nil || r.Bool() {
 				a.Def = gg.def()
+				a.DefTyped = r.Bool()
 			} else {
 				a.Def = nil
 			}
